@@ -35,7 +35,7 @@ package tabula
 
 // ---- C10: deriving a configured extractor never changes (or shares mutable state with) the one it came from ----
 //@ func (ExtractOptions) clone results (res)
-//@   property C10
+//@   property C10, C03
 //@   flags noalias, nosafety
 //@   fresh pages
 //@   ensures same_values: res.excludeHeaders == o.excludeHeaders && res.excludeFooters == o.excludeFooters && res.byColumn == o.byColumn && res.preserveLayout == o.preserveLayout && res.joinParagraphs == o.joinParagraphs && sameseq(res.pages, o.pages)
